@@ -18,6 +18,7 @@ import (
 
 	"git.sr.ht/~rockorager/vaxis/ansi"
 	"git.sr.ht/~rockorager/vaxis/log"
+	"git.sr.ht/~rockorager/vaxis/verifhook"
 )
 
 type capabilities struct {
@@ -767,6 +768,7 @@ outerNew:
 }
 
 func (vx *Vaxis) handleSequence(seq ansi.Sequence) {
+	verifhook.At("vaxis.handleSequence")
 	log.Trace("[stdin] sequence: %s", seq)
 	switch seq := seq.(type) {
 	case ansi.Print:
@@ -825,6 +827,7 @@ func (vx *Vaxis) handleSequence(seq ansi.Sequence) {
 					log.Error("not enough DSRCPR params")
 					return
 				}
+				verifhook.At("vaxis.cpr.beforeSend")
 				// Never block here: CursorPosition may have timed
 				// out between our check above and this send, and
 				// nobody would ever receive
@@ -1355,6 +1358,7 @@ func (vx *Vaxis) Suspend() error {
 	// 3. Confirm we have closed
 	vx.parser.Close()
 	io.WriteString(vx.console, primaryAttributes)
+	verifhook.At("vaxis.suspend.beforeWait")
 	vx.parser.WaitClose()
 
 	vx.disableModes()
